@@ -388,6 +388,8 @@ class Subject:
         self.props = props  # set of property ids whose oracles are evaluated
         self.isa = trace_settings["isa"]
         self.sut = self.s16 = self.s13 = self.s20 = None
+        self.s20_obj = None  # whole-step shadow: lives as long as the SUT object and receives the same loads
+        self.loads_on_object = 0
         self.text = None
         self.loaded_ok = False
         self.faulted = False
@@ -463,6 +465,13 @@ class Subject:
         except Exception as e:  # noqa: BLE001
             raise SutConstructionError(f"{type(e).__name__}: {e}") from e
         self.decoy = self.make_decoy() if self.settings.get("decoy") else None
+        self.loads_on_object = 0
+        self.s20_obj = None
+        if self.isa == "toy" and "C20" in self.props:
+            try:
+                self.s20_obj = self.factory()
+            except Exception:  # noqa: BLE001
+                self.s20_obj = None
         self.s13 = None
         self.s20 = None
         self.s20_isolated = None
@@ -503,6 +512,14 @@ class Subject:
             out16 = ("ok",)
         except Exception as e:  # noqa: BLE001
             out16 = ("error", None, type(e).__name__)
+        self.loads_on_object += 1
+        s20_loaded = False
+        if self.s20_obj is not None:
+            try:
+                self.s20_obj.load_program(text)
+                s20_loaded = True
+            except Exception:  # noqa: BLE001
+                s20_loaded = False
         self.hs.add("load", len(text), out[0], out[2] if len(out) > 2 else None)
         if (out[0], out[2:] ) != (out16[0], out16[2:]):
             self.violate("C16", "load-outcome-differs-from-uninspected-shadow", expected=out16, got=out)
@@ -590,12 +607,11 @@ class Subject:
                 self.s13 = None
         self.s20_isolated = None
         if self.isa == "toy":
-            self.s20 = self.factory()
-            try:
-                self.s20.load_program(text)
-            except Exception:  # noqa: BLE001
-                self.s20 = None
-            if "C20" in self.props and self.clean is not None:
+            # the whole-step shadow has the same load history as the simulation under observation (whether a
+            # reload equals a fresh load is C13's business, not C20's); the clean-room run of a *fresh* simulation
+            # is therefore used only for the first load on an object
+            self.s20 = self.s20_obj if s20_loaded else None
+            if "C20" in self.props and self.clean is not None and self.loads_on_object == 1:
                 self.s20_isolated = self.clean.ask("toy_whole_steps", None, text)
         self.eff_steps = 0
         self.was_done = False
